@@ -267,7 +267,7 @@ def _style(api, env, act):
         px = env.get_last_price(act['id'])
         return api.LimitOrder(round(px * st[1], 2))
     if st[0] == 'limabs':
-        return api.LimitOrder(st[1])
+        return api.LimitOrder(float(st[1]))       # 'nan' is written as a string in scenarios
     raise ValueError(st)
 
 
@@ -383,6 +383,7 @@ def run_scenario(scn, light=False, extra_init=None, keep_bundle=None, world=None
 
     rng = random.Random(scn['world_seed'])
     w = world or W.gen_world(rng, scn.get('world_opts'))
+    W.apply_overrides(w, scn.get('world_overrides'))
     bundle = keep_bundle or tempfile.mkdtemp(prefix='vb_', dir=SCRATCH_ROOT)
     try:
         if not os.path.exists(os.path.join(bundle, 'trading_dates.npy')):
